@@ -218,12 +218,20 @@ Definition m3u_save_with g (fs : node) (base p : path) : outcome :=
   with_guard g fs base p
     (rbind (resolve fs (parent p)) (fun d => Ok [TCreateIn d; TEntry d (base_name p)])).
 
-(* the additional rename of save(): (parent p, name p) -> (playlists dir, new file name) *)
+(* the additional rename of save(): (parent p, name p) -> (playlists dir, new file name).
+   newname = path_from_name(name.strip(), suffix of p) is a single component (separators
+   are replaced), but for a URI without extension it can be "" / "." (pathlib drops it:
+   the destination is then the playlists directory itself, i.e. its entry in ITS parent)
+   or ".." (entry ".." of the playlists directory).  Path.rename() of a regular file onto
+   a directory always fails in the kernel (EISDIR / ENOTEMPTY / EBUSY): kernel behaviour,
+   not modelled, checked by the monitors (only successful calls count as effects). *)
+Definition rename_target (b : path) (newname : name) : touch :=
+  if is_dot newname then TEntry (parent b) (base_name b) else TEntry b newname.
 Definition m3u_rename_with g (fs : node) (base p : path) (newname : name) : outcome :=
   with_guard g fs base p
     (rbind (resolve fs (parent p)) (fun d =>
      rbind (resolve fs base) (fun b =>
-       Ok [TCreateIn d; TEntry d (base_name p); TEntry d (base_name p); TEntry b newname]))).
+       Ok [TCreateIn d; TEntry d (base_name p); TEntry d (base_name p); rename_target b newname]))).
 
 Definition m3u_as_list (fs : node) (base : path) : outcome :=
   match resolve fs base with Ok b => Acts [TList b] | Raise e => Raised e | Diverge => Raised GLoop end.
